@@ -130,8 +130,8 @@ PROPS = {
             "rule": "the same history passed as lists (reference), C- / Fortran-ordered float arrays, int64 arrays, pandas Series (incl. the single-feature / single-row "
                     "disambiguation), DataFrames and non-contiguous strided views; byte snapshots of every caller object (data, arms list, tree_parameters, arm features) "
                     "before and after each call; arm-list aliasing probe; non-trivial = >= 1 call compared"},
-    "C05": {"gen": g_c05, "fields": ("out", "arms", "nhist", "lsh", "leaves"), "functional": False, "n": (120, 1500),
-            "relations": [("njobs_backend_rows_order", REL.gen_c05, REL.run_c05, (140, 2500))], "pre": "partition_table",
+    "C05": {"gen": g_c05, "fields": ("out", "arms", "nhist", "lsh", "leaves"), "functional": False, "n": (120, 800),
+            "relations": [("njobs_backend_rows_order", REL.gen_c05, REL.run_c05, (140, 1000))], "pre": "partition_table",
             "rule": "_partition_contexts / _effective_jobs compared exhaustively with the extracted model for n <= 300 (quick) / 2000 (thorough) x n_jobs in -20..40; "
                     "correspondence cases run with n_jobs in {1,2,3} (threading) so that the model's chunk semantics (one deep copy of the policy per chunk) is exercised; "
                     "relation: n_jobs in {2,3,n,n+1,-1,-2,64} x backend vs n_jobs=1, _predict_contexts whole batch vs row by row, per-arm fit tasks in permuted order; "
